@@ -129,4 +129,90 @@ theorem C11_ping_max_no_wait (s : S) (tag : String) (h : s.ping.isSome) : s.ping
   unfold S.pingCall
   simp [h]
 
+/-! ## The search for a free identifier terminates (pigeonhole) -/
+
+def idAt (s : S) (f : Option (List Bytes)) (j : Nat) : Nat := (s.txN + j) % (Facts.unorderedIDMask + 1) + txSpace f
+
+theorem filter_length_lt {α} (p q : α → Bool) (l : List α) (hpq : ∀ x, q x = true → p x = true)
+    (x : α) (hx : x ∈ l) (hp : p x = true) (hq : q x = false) : (l.filter q).length < (l.filter p).length := by
+  induction l with
+  | nil => simp at hx
+  | cons a t ih =>
+    have hle : ∀ (l : List α), (l.filter q).length ≤ (l.filter p).length := by
+      intro l
+      induction l with
+      | nil => simp
+      | cons b u ihu =>
+        simp only [List.filter_cons]
+        cases hqb : q b with
+        | false => cases p b <;> simp <;> omega
+        | true => simp [hpq b hqb]; exact ihu
+    simp only [List.filter_cons]
+    rcases List.mem_cons.mp hx with rfl | hmem
+    · simp only [hp, hq, if_true, Bool.false_eq_true, if_false, List.length_cons]
+      have := hle t
+      omega
+    · have := ih hmem
+      cases hqa : q a with
+      | false => cases p a <;> simp <;> omega
+      | true => simp [hpq a hqa]; exact this
+
+/-- the search of `startTx` ends within its fuel: of `fuel` consecutive counter values (fewer than the 8192 of the
+window, so all different) at most as many as there are registered transactions can be taken -/
+theorem startTxLoop_finds (tag : String) (f : Option (List Bytes)) :
+    ∀ (fuel : Nat) (s : S) (tried : List Nat), fuel ≤ Facts.unorderedIDMask + 1 →
+      (∀ j, j < fuel → idAt s f j ∉ tried) →
+      (s.txs.filter (fun t => !tried.contains t.id)).length < fuel →
+      (S.startTxLoop fuel s tag f).2 ≠ 0 := by
+  intro fuel
+  induction fuel with
+  | zero => intro s tried _ _ h; simp at h
+  | succ fuel ih =>
+    intro s tried hM hfut hlen
+    simp only [S.startTxLoop]
+    have hsp : 0 < txSpace f := by unfold txSpace; cases f <;> simp <;> decide
+    split
+    · rename_i hany
+      -- the identifier is taken by some registered transaction
+      obtain ⟨t, ht, hid⟩ := List.any_eq_true.mp hany
+      have hid' : t.id = idAt s f 0 := by simpa [idAt] using hid
+      have h0 : idAt s f 0 ∉ tried := hfut 0 (by omega)
+      apply ih { s with txN := s.txN + 1 } (idAt s f 0 :: tried) (by omega)
+      · intro j hj
+        have hj' := hfut (j + 1) (by omega)
+        have hne : idAt { s with txN := s.txN + 1 } f j ≠ idAt s f 0 := by
+          simp only [idAt, Nat.add_zero]
+          have hm : Facts.unorderedIDMask + 1 = 8192 := rfl
+          rw [hm] at hM ⊢
+          intro h
+          have : (s.txN + 1 + j) % 8192 = s.txN % 8192 := by omega
+          omega
+        have heq : idAt { s with txN := s.txN + 1 } f j = idAt s f (j + 1) := by
+          simp only [idAt]; congr 2; omega
+        simp only [List.mem_cons, not_or]
+        exact ⟨hne, heq ▸ hj'⟩
+      · show (s.txs.filter (fun t => !(idAt s f 0 :: tried).contains t.id)).length < fuel
+        have := filter_length_lt (fun t : Tx => !tried.contains t.id) (fun t : Tx => !(idAt s f 0 :: tried).contains t.id) s.txs
+          (by intro x hx; simp only [List.contains_cons, Bool.not_or, Bool.and_eq_true, Bool.not_eq_true'] at hx ⊢; simpa using hx.2)
+          t ht (by simpa [hid'] using h0) (by simp [hid'])
+        omega
+    · show s.txN % (Facts.unorderedIDMask + 1) + txSpace f ≠ 0
+      omega
+
+/-- `startTx` always hands out an identifier when the table has room (the loop never runs out of fuel) -/
+theorem C11_startTx_total (s : S) (tag : String) (f : Option (List Bytes)) (h : s.txs.length ≤ Facts.unorderedIDMask / 16) :
+    ∃ id, (s.startTx tag f).2 = some id ∧ id ≠ 0 := by
+  unfold S.startTx
+  have hm : Facts.unorderedIDMask / 16 = 511 := rfl
+  have hnot : ¬ (s.txs.length > Facts.unorderedIDMask / 16) := by omega
+  simp only [hnot, if_false]
+  refine ⟨_, rfl, ?_⟩
+  apply startTxLoop_finds tag f (s.txs.length + 1) s []
+  · have : Facts.unorderedIDMask + 1 = 8192 := rfl
+    omega
+  · intro j _; simp
+  · have := List.length_filter_le (fun _ : Tx => true) s.txs
+    simp only [List.contains_nil, Bool.not_false]
+    omega
+
 end Model
